@@ -9,10 +9,10 @@ cd $WT
 TEST=$(python3 -c "import json;print(json.load(open('$SRC/meta.json'))['demo_test'].split('::')[-1])")
 git apply $SRC/demo.diff || { echo "demo.diff does not apply"; exit 2; }
 echo "--- demo on unmodified code ($TEST)"
-CARGO_NET_OFFLINE=true cargo nextest run --workspace --offline --no-fail-fast -j 4 -- $TEST 2>&1 | grep -E "^\s+(PASS|FAIL|TIMEOUT)|Summary|error" | head -5
+CARGO_NET_OFFLINE=true cargo nextest run --workspace --offline --no-fail-fast -j 4 -- $TEST 2>&1 | grep -E "^\s+(PASS|FAIL|TIMEOUT) |Summary \[" | head -4
 git apply $SRC/patch.diff || { echo "patch.diff does not apply"; exit 2; }
 echo "--- demo with the change"
-CARGO_NET_OFFLINE=true cargo nextest run --workspace --offline --no-fail-fast -j 4 -- $TEST 2>&1 | grep -E "^\s+(PASS|FAIL|TIMEOUT)|Summary|error" | head -5
+CARGO_NET_OFFLINE=true cargo nextest run --workspace --offline --no-fail-fast -j 4 -- $TEST 2>&1 | grep -E "^\s+(PASS|FAIL|TIMEOUT) |Summary \[" | head -4
 echo "--- baseline suite with the change"
 /verif/tools/baseline.sh $WT 2>&1 | tail -3
 echo "--- checks on the change (code change only)"
